@@ -8,6 +8,10 @@
      ev "crash" : the same operation re-executed with a power cut before mutation k (or inside an
                   unseen step); view = what a fresh reader reports afterwards.
                   Clauses Partial / Neither / Mixed / Collateral from JudgeView(old, new, view).
+     ev "fault" : the same operation re-executed with an I/O error (EIO / ENOSPC) injected at mutation k (or
+                  inside an unseen step); the operation's OWN error handling ran and the operation
+                  aborted; view = what a fresh reader reports afterwards.  Same clauses: where a handled
+                  failure leaves the repository is a state every later reader (and any crash) sees.
    Views arrive as arrays of {cpv, dg, core}.                                                       *)
 EXTENDS PkgDb, TraceLib
 VARIABLE l
@@ -23,7 +27,7 @@ Judge(e) ==
             (IF OpApplicable(e.op, old, e.oldcpv, e.newcpv) THEN {} ELSE {"Applicable"})
             \cup (IF \E d \in newdgs : new = ApplyOp(e.op, old, e.oldcpv, e.newcpv, d) THEN {} ELSE {"Effect"})
             \cup (IF e.op = "uninstall" \/ cores = {e.srccore} THEN {} ELSE {"Stored"})
-       [] e.ev = "crash" -> JudgeView(old, new, EntrySet(e.view))
+       [] e.ev \in {"crash", "fault"} -> JudgeView(old, new, EntrySet(e.view))
        [] OTHER -> {"UnknownEvent"}
 
 TraceInit == l = 0
